@@ -7,8 +7,6 @@ import (
 	"go/types"
 	"strings"
 
-	"golang.org/x/tools/go/cfg"
-
 	"rscheck/cfgq"
 	"rscheck/core"
 	"rscheck/flow"
@@ -247,92 +245,4 @@ func Transfer(c *core.Ctx, fn *core.Fn, sp TransferSpec) *TransferResult {
 func FrozenField(c *core.Ctx, fn *core.Fn, name string) []flow.Store {
 	e := flow.New(c.Program)
 	return e.Stores(cfgq.Of(c.Program, fn), fn.Decl.Body, func(v *types.Var) bool { return v.Name() == name && v.Pkg() == fn.Obj.Pkg() })
-}
-
-// ZeroGuard checks the "nothing to move" case of a transfer: the transfer is
-// reached only with maxlen != 0, and where the code tests maxlen == 0 it
-// returns (0, nil) so that the caller waits. Returns 1 ok, 0 violated, -1
-// undecided.
-func ZeroGuard(c *core.Ctx, res *TransferResult) (int, string) {
-	if res == nil || res.Transfer == nil || res.Offset == nil {
-		return -1, "transfer not located"
-	}
-	info := res.G.Info
-	isMax := func(x ast.Expr) bool { return flow.IsResult(info, x, res.Offset.Call, 0) }
-	zeroCmp := func(f cfgq.Fact, ops ...token.Token) bool {
-		be, ok := ast.Unparen(flow.Positive(f)).(*ast.BinaryExpr)
-		if !ok {
-			return false
-		}
-		for _, p := range [][2]ast.Expr{{be.X, be.Y}, {be.Y, be.X}} {
-			if v, isC := core.IntConst(info, p[1]); isC && v == 0 && isMax(p[0]) {
-				for _, op := range ops {
-					if be.Op == op {
-						return true
-					}
-				}
-			}
-		}
-		return false
-	}
-	nonZero := func(f cfgq.Fact) bool { return zeroCmp(f, token.NEQ, token.GTR, token.LSS) }
-	isZero := func(f cfgq.Fact) bool { return zeroCmp(f, token.EQL, token.LEQ, token.GEQ) }
-	if !res.E.Under(*res.Transfer, nonZero) {
-		return 0, "the transfer is reachable with maxlen == 0 not excluded"
-	}
-	// where the root function itself tests maxlen == 0: it returns (0, nil)
-	g := res.G
-	e := res.E
-	found, bad := false, ""
-	for _, b := range g.CFG.Blocks {
-		if !b.Live || len(b.Succs) != 2 {
-			continue
-		}
-		for si := range b.Succs {
-			hit := false
-			end := flow.Site{G: g, At: cfgq.Point{B: b, I: len(b.Nodes)}}
-			for _, f := range g.EdgeFacts(b, si) {
-				rf := cfgq.Fact{Expr: e.Resolve(end, f.Expr), Val: f.Val}
-				if isZero(rf) {
-					hit = true
-				}
-			}
-			if !hit {
-				continue
-			}
-			found = true
-			seen := map[*cfg.Block]bool{}
-			var walk func(bb *cfg.Block)
-			walk = func(bb *cfg.Block) {
-				if seen[bb] {
-					return
-				}
-				seen[bb] = true
-				for _, nd := range bb.Nodes {
-					if ret, ok := nd.(*ast.ReturnStmt); ok {
-						okR := len(ret.Results) == 2 && core.IsNil(info, ret.Results[1])
-						if okR {
-							v, isC := core.IntConst(info, ret.Results[0])
-							okR = isC && v == 0
-						}
-						if !okR {
-							bad = c.Src(ret)
-						}
-						return
-					}
-				}
-				for _, s := range bb.Succs {
-					walk(s)
-				}
-			}
-			walk(b.Succs[si])
-		}
-	}
-	switch {
-	case bad != "":
-		return 0, "with maxlen == 0 the function ends in `" + bad + "`"
-	case !found:
-		return -1, "cannot see what is returned when maxlen == 0"
-	}
-	return 1, ""
 }
